@@ -829,7 +829,63 @@ def run(prog, rep):
         if pairs or un == "pcryptohash-sha3.c":
             rep.ob("C11.7", fin, "pad-alias", ok7 and pairs > 0, "%d pair(s) of padding stores with possibly equal indices: the later one ORs its bits in" % pairs if (ok7 and pairs) else
                    (msg7 or "no padding store pair found"), fin.loc[0])
-    rep.floor("C11.4", 6)
+    # the input cursor of update (sibling agreement over the six algorithm units: complete the partial block, whole blocks, tail):
+    # between two reads of the input pointer on a path the pointer is advanced (how the remaining length is kept is free: a block counter does as well; else the same bytes
+    # are hashed twice when an update completes a partially filled block), and the tail copy lands at offset 0 of the buffer on every
+    # path on which a block was processed in this call (else the tail of a split update is stored behind stale bytes)
+    ncur = 0
+    for un in ALGO_UNITS:
+        au = prog.unit(un)
+        for fr_ in sorted(au.functions.values(), key=lambda f__: f__.loc[0]):
+            if not fr_.name.endswith("_update") or len(fr_.param_names()) < 3:
+                continue
+            big = tuple(g_.name for g_ in au.functions.values() if g_.static and sum(len(b_.stmts) for b_ in g_.blocks.values()) > 40)     # the block function stays a call
+            fu = fr_.inlined(skip=big)
+            cp_, dp_, lp_ = fu.param_names()[:3]
+            dal = fu.copies_of(dp_)
+            curbad = []
+
+            def us(st, b, i, stmt, curbad=curbad, dal=dal, dp_=dp_, lp_=lp_, cp_=cp_, au=au, fr_=fr_):
+                facts, pend_d, pend_l, processed = st
+                for n_ in walk(stmt):
+                    if n_["k"] == "call":
+                        cn_ = n_.get("callee")
+                        reads = [a for a in n_.get("args", ()) if root_var(a) in dal and strip_casts(a) is not None and not (strip_casts(a)["k"] == "un" and strip_casts(a).get("op") == "&")]
+                        if reads and cn_ not in ("__builtin_expect",):
+                            if pend_d:
+                                curbad.append((line(n_), "the input pointer is read again without having been advanced past the bytes consumed at line %d" % pend_d))
+                            pend_d = pend_l = line(n_)
+                            if cn_ in ("memcpy", "__builtin_memcpy", "__builtin___memcpy_chk"):
+                                d_ = strip_casts(n_["args"][0])
+                                if d_ is not None and d_["k"] == "bin" and d_["op"] == "+" and cv(d_["r"]) is None:
+                                    # a copy to `buffer + fill level`: the first one on a path completes the partial block; after it
+                                    # the block has been processed and the buffer is empty, so a second one starts at offset 0
+                                    off_ = guards.eval_const(d_["r"], facts)
+                                    if processed and off_ != 0:
+                                        curbad.append((line(n_), "the tail is copied to offset %s of the block buffer although the partial block was completed and processed earlier in this call: "
+                                                       "the buffer is empty then and the tail belongs at offset 0" % show(d_["r"])))
+                                    processed = True
+                    if n_["k"] == "asg" and strip_casts(n_["l"])["k"] == "ref":
+                        tv = strip_casts(n_["l"])["name"]
+                        if tv == dp_ and (n_["op"] == "+=" or (n_["op"] == "=" and root_var(n_["r"]) == dp_)):
+                            pend_d = 0
+                        if tv == lp_ and (n_["op"] == "-=" or (n_["op"] == "=" and root_var(n_["r"]) == lp_)):
+                            pend_l = 0
+                    if n_["k"] == "un" and "++" in n_.get("op", "") and root_var(n_["e"]) == dp_:
+                        pend_d = 0
+                return [(guards.transfer(facts, stmt), pend_d, pend_l, processed)]
+
+            def ue(st, b, to, on):
+                f2 = guards.edge_assume(st[0], b, on)
+                return None if f2 is None else (f2, st[1], st[2], st[3])
+            try:
+                Flow(fu, [(guards.EMPTY, 0, 0, False)], us, ue, max_states=20000).run()
+            except AnalysisBroken:
+                continue
+            ncur += 1
+            rep.ob("C11.4", fr_, "cursor", not curbad, "the input pointer moves past every chunk before the next one is read; the tail lands at the start of an emptied buffer" if not curbad else
+                   "line %d: %s" % curbad[0], curbad[0][0] if curbad else fr_.loc[0])
+    rep.floor("C11.4", 6 + 6)
     # fixed-size state, schedule and constant arrays: every subscript whose index is a constant, or a loop counter for which the path
     # carries an upper bound, stays inside the array - with the loop's stride taken into account (`for (i = 0; i < 64; i += 8) ... W[i + 7]`).
     # One step too far (`i <= 8` over `A[8]`) writes next to the array on the stack; the digest can still come out right.
@@ -1126,6 +1182,10 @@ def run(prog, rep):
 RENAME_LOCALS = ['src/pcryptohash.c', 'src/pcryptohash-sha3.c']   # md5/sha1 use unhygienic round macros that name the locals
 
 SELFTEST = [
+    dict(id="sha3-update-input-not-advanced", file="src/pcryptohash-sha3.c", expect="C11.4",
+         old="\t\tdata += to_fill;\n\t\tlen -= to_fill;\n\t\tleft = 0;", new="\t\tlen -= to_fill;\n\t\tleft = 0;"),
+    dict(id="sha512-update-fill-level-kept", file="src/pcryptohash-sha2-512.c", expect="C11.4",
+         old="\t\tdata += to_fill;\n\t\tlen -= to_fill;\n\t\tleft = 0;", new="\t\tdata += to_fill;\n\t\tlen -= to_fill;"),
     dict(id="reset-only-when-closed", file="src/pcryptohash.c", expect="C11.2",
          old="\thash->reset (hash->context);\n\thash->closed = FALSE;", new="\tif (!hash->closed)\n\t\treturn;\n\n\thash->reset (hash->context);\n\thash->closed = FALSE;"),
     dict(id="sha256-working-copy-one-too-far", file="src/pcryptohash-sha2-256.c", expect="C11.5",
